@@ -22,15 +22,17 @@ static void init(void)
     if ((e = getenv("VP_EINTR_READ"))) eintr_read = atol(e); if ((e = getenv("VP_EINTR_WRITE"))) eintr_write = atol(e); if ((e = getenv("VP_EINTR_RAND"))) eintr_rand = atol(e);
     if ((e = getenv("VP_SHORT"))) short_io = atoi(e); if ((e = getenv("VP_STDIO"))) stdio_too = atoi(e); if ((e = getenv("VP_ERRNO"))) fail_errno = atoi(e);
 }
+/* the kernel fills / reads the buffer, which no sanitizer sees: the two ends of the range the tool hands over are touched here, in instrumented code */
+static void touch(const volatile void *b, size_t n, int wr) { if (!n) return; volatile unsigned char *p = (volatile unsigned char *)b; unsigned char a = p[0], z = p[n - 1]; if (wr) { p[0] = a; p[n - 1] = z; } }
 ssize_t read(int fd, void *b, size_t n)
 {
-    init();
+    init(); touch(b, n, 1);
     if (fd > 2 || (stdio_too && fd < 2)) { if (nread == eintr_read) { eintr_read = -1; errno = EINTR; return -1; } long k = nread++; if (k == fail_read) { errno = fail_errno; return -1; } if (short_io && n > 1) n = 1; }
     return syscall(SYS_read, fd, b, n);
 }
 ssize_t write(int fd, const void *b, size_t n)
 {
-    init();
+    init(); touch(b, n, 0);
     if (fd > 2 || (stdio_too && fd < 2)) { if (nwrite == eintr_write) { eintr_write = -1; errno = EINTR; return -1; } long k = nwrite++; if (k == fail_write) { errno = fail_errno; return -1; } if (short_io && n > 1) n = 1; }
     return syscall(SYS_write, fd, b, n);
 }
